@@ -13,7 +13,7 @@
  *     prx    - | mask/flags/h+h+...   coap_resource_proxy_uri_init2, h = host name bytes token
  *     hact   code/opts/payload[/A]    what every handler does: opts = - | num=hex+num=hex;
  *                                     /A: it calls coap_register_async(session, request, 0) and sets nothing
- *     loc    u|m                      destination of the request: the bind address | 224.0.1.187
+ *     loc    u|m (one letter per datagram, the last repeats)   destination: the bind address | 224.0.1.187
  *     dgram  hex
  * result line: events separated by blanks, "-" if none
  *   H[r=<res path hex> s=<slot> c=<code> k=<token> q=<query> u=<path> o=<opts> p=<payload>]
@@ -320,7 +320,9 @@ static void c10(void) {
   if (vntok < 9) { puts("ERROR args"); return; }
   if (!setup(vtok[1], vtok[2], vtok[3], vtok[4], vtok[5])) { puts("ERROR setup"); return; }
   parse_hact(vtok[6]);
-  int mcast = vtok[7][0] == 'm';
+  const char *dests = vtok[7];       /* one letter per datagram, the last one repeats */
+  size_t ndests = strlen(dests);
+  int step = 0;
   coap_address_t local;
   case_no++;
   vn_addr4(&cur_peer, 0x0a000000u + (uint32_t)(case_no / 40000) + 1, (uint16_t)(20000 + case_no % 40000));
@@ -331,6 +333,8 @@ static void c10(void) {
   for (char *part = strtok_r(vtok[8], "+", &save); part; part = strtok_r(NULL, "+", &save)) {
     size_t n;
     uint8_t *dg = bytes_of_tok(part, &n);
+    int mcast = dests[(size_t)step < ndests ? (size_t)step : ndests - 1] == 'm';
+    step++;
     char *r = run_step(dg, n, mcast, &local);
     if (!first) fputs(" | ", stdout);
     first = 0;
